@@ -100,7 +100,7 @@ func (fr *Frame) callFunc(fn *ssa.Function, bindings []Val, args []Val, p token.
 		return res
 	}
 	bc := eng.contractFor(fn)
-	if bc != nil && !bc.C.Inline {
+	if bc != nil && !bc.C.Inline && !bc.C.AlsoInline {
 		return fr.callContract(bc, args, p)
 	}
 	// inline
@@ -618,7 +618,8 @@ func (fr *Frame) builtinVals(name string, c *ssa.CallCommon, args []Val, p token
 			return []Val{{t: w.scap(x.t), typ: intT}}
 		case *types.Map:
 			_, _, lnH := w.mapHeapNames(u)
-			l := b.Ite(b.IsNil(x.t), b.BV(0, 64), b.Select(fr.st.heap(fr.cx, lnH), x.t))
+			l := b.Name("maplen", b.Ite(b.IsNil(x.t), b.BV(0, 64), b.Select(fr.st.heap(fr.cx, lnH), x.t)))
+			fr.assume(b.And(b.BVCmp("bvsge", l, b.BV(0, 64)), b.BVCmp("bvslt", l, b.BV(1<<62, 64))))
 			return []Val{{t: l, typ: intT}}
 		case *types.Basic: // string
 			v := b.Const("strlen", SBV(64))
@@ -754,6 +755,7 @@ func (fr *Frame) appendSlice(c *ssa.CallCommon, args []Val, p token.Pos) Val {
 	fits := b.Name("appfits", b.BVCmp("bvsle", newLen, cp))
 	// in place
 	fr.cx.newN++
+	fr.cx.dynAlloc = true
 	nb := b.NewObj(fr.cx.newN)
 	fr.needZeroAxioms(el)
 	ncap := b.Const("appcap", SBV(64))
